@@ -21,6 +21,9 @@ import PybropsModel.Lemmas.XConfigCount
 import PybropsModel.Lemmas.XConfigTwoWay
 import PybropsModel.Lemmas.XConfigMate
 import PybropsModel.Lemmas.SelProtEquiv
+import PybropsModel.Lemmas.SelProtStable
+import PybropsModel.Lemmas.SelProtStablePerm
+import PybropsModel.Lemmas.SelProtSpace
 set_option autoImplicit false
 set_option linter.unusedSectionVars false
 set_option linter.unusedVariables false
@@ -74,6 +77,28 @@ theorem subset_xconfig_spec (decn : List Nat) (nc np : Nat) (rem perm : List Nat
   · rw [evenOn_iff]
     intro a ha b hb
     rcases hc a ha with h1 | h1 <;> rcases hc b hb with h2 | h2 <;> omega
+
+/-- **what the subset Spec says** (`spec_iff`): the Bool the harness evaluates on the implementation's table
+    is exactly the conjunction of the four clauses of the property -/
+theorem subset_spec_iff (decn : List Nat) (nc np : Nat) (rows : Rows) :
+    specSubset decn nc np rows = true ↔
+      Rect nc np rows ∧ (∀ e ∈ rows.flatten, e ∈ decn) ∧
+      (∀ a ∈ decn, ∀ b ∈ decn, rows.flatten.count a ≤ rows.flatten.count b + 1) ∧
+      ExchangeOptimal nc np rows := by
+  simp only [specSubset, Bool.and_eq_true, shapeOk_iff, evenOn_iff, localOpt_iff, List.all_eq_true,
+    List.contains_iff_mem, and_assoc]
+
+/-- **what the contribution Spec says** (`spec_iff`, integer / binary vectors): shape, support, every use count
+    within one of the proportional share (in integer arithmetic `|cᵢ·Σd − N·dᵢ| ≤ Σd`), exchange-optimal -/
+theorem contribution_spec_iff (decn : List Nat) (nc np : Nat) (rows : Rows) :
+    specContribution (decn.map (fun (d : Nat) => (d : Rat))) nc np rows = true ↔
+      Rect nc np rows ∧ (∀ i ∈ rows.flatten, i < decn.length ∧ 0 < decn.getD i 0) ∧
+      (∀ i, i < decn.length →
+        rows.flatten.count i * decn.sum ≤ decn.sum + nc * np * decn.getD i 0 ∧
+        nc * np * decn.getD i 0 ≤ decn.sum + rows.flatten.count i * decn.sum) ∧
+      ExchangeOptimal nc np rows := by
+  simp only [specContribution, Bool.and_eq_true, shapeOk_iff, supportOk_cast_iff, withinOne_cast_iff,
+    localOpt_iff, and_assoc]
 
 /-- **The sampler always returns** (termination of the hill-climb, no error) when it is handed one
     more exchange order than there are slots — the score drops at every accepted exchange. -/
@@ -219,6 +244,57 @@ theorem integer_remainder_attained (decn r : List Nat) (nc np : Nat)
   intro orders rowperms rows va h i
   rw [((integer_remainder_exact decn nc np _ _ orders rowperms rows vt va h).1 i).1, hcnt i]
 
+/-- **D20, exact characterisation of the integer remainder draw.**  A vector of use counts `c` can come out
+    of `IntegerSelectionConfiguration.sample_xconfig` (for some legitimate sequence of generator draws) if and
+    only if `c = q·d + r` for a remainder vector `r` with `rᵢ ≤ dᵢ` and `Σr = N mod Σd` (`q = ⌊N/Σd⌋`,
+    `N = ncross·nparent`).  Nothing ties `rᵢ` to the share `N·dᵢ/Σd`: that is the defect. -/
+theorem integer_use_counts_iff (decn c : List Nat) (nc np : Nat) (hnp : 0 < np) (hS : 0 < decn.sum)
+    (hc : c.length = decn.length) :
+    (∃ rem perm orders rowperms rows, ValidTiled (options decn) (nc * np) rem perm ∧
+        ValidArrange nc np orders rowperms ∧
+        sampleInteger decn nc np rem perm orders rowperms = .ok rows ∧
+        ∀ i, i < decn.length → rows.flatten.count i = c.getD i 0) ↔
+      ∃ r : List Nat, r.length = decn.length ∧ (∀ i, r.getD i 0 ≤ decn.getD i 0) ∧
+        r.sum = nc * np % decn.sum ∧
+        ∀ i, i < decn.length → c.getD i 0 = (nc * np / decn.sum) * decn.getD i 0 + r.getD i 0 := by
+  constructor
+  · rintro ⟨rem, perm, orders, rowperms, rows, vt, va, h, hcnt⟩
+    obtain ⟨hex, hsum⟩ := integer_remainder_exact decn nc np rem perm orders rowperms rows vt va h
+    refine ⟨(List.range decn.length).map (fun i => rem.count i), by simp, ?_, hsum, ?_⟩
+    · intro i
+      by_cases hi : i < decn.length
+      · have : ((List.range decn.length).map (fun i => rem.count i)).getD i 0 = rem.count i := by
+          simp [List.getD_eq_getElem?_getD, List.getElem?_map, List.getElem?_range hi]
+        rw [this]
+        exact le_trans (hex i).2 (min_le_left _ _)
+      · have : ((List.range decn.length).map (fun i => rem.count i)).getD i 0 = 0 := by
+          simp [List.getD_eq_getElem?_getD, List.getElem?_map, List.getElem?_eq_none (show (List.range decn.length).length ≤ i by simpa using Nat.le_of_not_lt hi)]
+        rw [this]; exact Nat.zero_le _
+    · intro i hi
+      have : ((List.range decn.length).map (fun i => rem.count i)).getD i 0 = rem.count i := by
+        simp [List.getD_eq_getElem?_getD, List.getElem?_map, List.getElem?_range hi]
+      rw [this, ← hcnt i hi]
+      exact (hex i).1
+  · rintro ⟨r, hl, hle, hsum, hcr⟩
+    obtain ⟨rem, vt, hatt⟩ := integer_remainder_attained decn r nc np hS hl hle hsum
+    -- enough exchange orders for the hill-climb to stop, identity row permutations
+    let orders : List (List Nat) := List.replicate (nc * np + 1) (List.range (exchPairs (nc * np)).length)
+    let rowperms : List (List Nat) := List.replicate nc (List.range np)
+    have va : ValidArrange nc np orders rowperms := by
+      refine ⟨hnp, ?_, ?_⟩
+      · intro perm hp
+        rw [List.mem_replicate] at hp
+        rw [hp.2]
+      · refine ⟨by simp [rowperms], ?_⟩
+        intro perm hp
+        rw [List.mem_replicate] at hp
+        rw [hp.2]
+    obtain ⟨rows, hrows⟩ := subset_sampling_total (options decn) nc np rem (List.range (nc * np)) orders rowperms vt
+      (by simp [orders])
+    refine ⟨rem, List.range (nc * np), orders, rowperms, rows, vt, va, hrows, ?_⟩
+    intro i hi
+    rw [hatt orders rowperms rows va hrows i, hcr i hi]
+
 /-- when the contributions sum to a divisor of the number of slots the shares are met exactly and the
     configuration meets the whole Spec.
 
@@ -310,6 +386,19 @@ theorem integer_share_counterexample :
     specContribution ([4, 4].map (fun (d : Nat) => (d : Rat))) 2 2 [[1, 1], [1, 1]] = false ∧
     withinOne ([4, 4].map (fun (d : Nat) => (d : Rat))) 4 [1, 1, 1, 1] = false := by decide +kernel
 
+-- `integer_use_counts_iff` on d = (4,4), 2x2 slots: the count vector (0,4) satisfies the right-hand side with r = (0,4)
+example : ∃ r : List Nat, r.length = ([4, 4] : List Nat).length ∧ (∀ i, r.getD i 0 ≤ ([4, 4] : List Nat).getD i 0) ∧
+    r.sum = 2 * 2 % ([4, 4] : List Nat).sum ∧
+    ∀ i, i < ([4, 4] : List Nat).length →
+      ([0, 4] : List Nat).getD i 0 = (2 * 2 / ([4, 4] : List Nat).sum) * ([4, 4] : List Nat).getD i 0 + r.getD i 0 := by
+  refine ⟨[0, 4], by decide, ?_, by decide, ?_⟩
+  · intro i
+    match i with
+    | 0 | 1 => decide
+    | i + 2 => simp
+  · intro i hi
+    match i, hi with
+    | 0, _ | 1, _ => decide
 -- the hypotheses of `integer_remainder_attained` are met by d = (4,4), N = 4, r = (0,4)
 example : 0 < ([4, 4] : List Nat).sum ∧ ([0, 4] : List Nat).length = ([4, 4] : List Nat).length ∧
     ([0, 4] : List Nat).sum = 2 * 2 % ([4, 4] : List Nat).sum ∧
@@ -449,6 +538,64 @@ example : xmapix 4 2 true = [[0, 1], [0, 2], [0, 3], [1, 2], [1, 3], [2, 3]] ∧
 example : sampleMate [5, 0, 3] (xmapix 4 2 true) 4 [0] [3, 0, 1, 2] [1, 0, 3, 2]
     = .ok [[2, 3], [0, 1], [1, 2], [0, 1]] := by decide
 
+/-- the Spec the harness evaluates on a subset mate-selection configuration is met by the model (`spec_sound`),
+    for every cross map without repeated rows whose rows have `nparent` entries — in particular for the
+    protocols' own map `xmapix ntaxa nparent unique` -/
+theorem mate_subset_xconfig_spec (decn : List Nat) (xmap : Rows) (nc np : Nat) (rem perm perm2 : List Nat) (rows : Rows)
+    (hx : xmap.Nodup) (hr : ∀ r ∈ xmap, r.length = np)
+    (hnd : decn.Nodup) (vt : ValidTiled decn nc rem perm) (hp2 : perm2.Perm (List.range nc))
+    (h : sampleMate decn xmap nc rem perm perm2 = .ok rows) :
+    specMateSubset decn xmap nc np rows = true := by
+  obtain ⟨out, e, hl, hm, hc⟩ := mate_subset_xconfig decn xmap nc rem perm perm2 rows hnd vt hp2 h
+  rw [e]
+  exact specMateSubset_of decn xmap nc np out hx hr hl hm hc
+
+theorem mate_subset_xconfig_spec_xmapix (decn : List Nat) (ntaxa nc np : Nat) (unique : Bool)
+    (rem perm perm2 : List Nat) (rows : Rows)
+    (hnd : decn.Nodup) (vt : ValidTiled decn nc rem perm) (hp2 : perm2.Perm (List.range nc))
+    (h : sampleMate decn (xmapix ntaxa np unique) nc rem perm perm2 = .ok rows) :
+    specMateSubset decn (xmapix ntaxa np unique) nc np rows = true :=
+  mate_subset_xconfig_spec decn _ nc np rem perm perm2 rows (xmapix_nodup ntaxa np unique)
+    (xmapix_row_length ntaxa np unique) hnd vt hp2 h
+
+/-- **The decision space of a mate-selection problem covers the whole cross map.**  `problem()` offers
+    `numpy.arange(len(xmap))` to the optimiser; every admissible candidate cross — every ascending
+    `nparent`-tuple over the population, `C(n,d)` resp. `C(n+d-1,d)` of them — is the map row of a member of
+    that space, and the space meets the decision-space Spec (bounds of length `ndecn`, each candidate once). -/
+theorem mate_problem_space_covers_cross_map (ntaxa nparent ncross : Nat) (unique : Bool) :
+    specCover (xmapix ntaxa nparent unique) (xmapix ntaxa nparent unique)
+        (subsetSpace (xmapix ntaxa nparent unique).length ncross).space = true ∧
+      specSpace true (xmapix ntaxa nparent unique).length
+        (subsetSpace (xmapix ntaxa nparent unique).length ncross) = true :=
+  ⟨specCover_self _, subsetSpace_spec _ _⟩
+
+/-- … and nothing less does: a decision space that is a proper prefix `arange(m)` of the cross map
+    (e.g. the closed form `C(n,d)+n` for `d ≥ 3` with repeated parents allowed, seeded change C07-b1)
+    fails the coverage Spec, whatever the population. -/
+theorem mate_problem_space_prefix_does_not_cover (ntaxa nparent : Nat) (unique : Bool) (m : Nat)
+    (hm : m < (xmapix ntaxa nparent unique).length) :
+    specCover (xmapix ntaxa nparent unique) (xmapix ntaxa nparent unique) (List.range m) = false := by
+  apply specCover_prefix_false _ m hm
+  intro i j hi hj hp
+  have hsorted : ∀ t ∈ xmapix ntaxa nparent unique, t.Pairwise (· ≤ ·) := by
+    intro t ht
+    have := ((xmapix_mem ntaxa nparent unique t).mp ht).2.1
+    refine this.imp ?_
+    intro a b hab
+    unfold Step at hab
+    split at hab
+    · exact Nat.le_of_lt hab
+    · exact hab
+  have he : (xmapix ntaxa nparent unique)[i] = (xmapix ntaxa nparent unique)[j] :=
+    List.Perm.eq_of_pairwise (fun a b _ _ h1 h2 => Nat.le_antisymm h1 h2)
+      (hsorted _ (List.getElem_mem hi)) (hsorted _ (List.getElem_mem hj)) hp
+  exact ((xmapix_nodup ntaxa nparent unique).getElem_inj_iff).mp he
+
+example : (xmapix 4 3 false).length = 20 ∧ Nat.choose 4 3 + 4 = 8 ∧
+    specCover (xmapix 4 3 false) (xmapix 4 3 false) (List.range 8) = false ∧
+    specCover (xmapix 4 3 false) (xmapix 4 3 false) (List.range 20) = true := by decide
+example : specMateSubset [5, 0, 3] (xmapix 4 2 true) 4 2 [[2, 3], [0, 1], [1, 2], [0, 1]] = true := by decide
+
 /-! ## 5. The exact optimiser: truncation selection -/
 
 section truncation
@@ -473,22 +620,50 @@ theorem truncation_perm_values (obj obj' : List α) (k : Nat) (h : obj'.Perm obj
     Np.take (sortingSubset obj' k) obj' = Np.take (sortingSubset obj k) obj := by
   rw [chosen_values, chosen_values, sorted_values_congr obj obj' h]
 
-/-- with pairwise-distinct criterion values *the* best-k set is unique … -/
+/-- **The exact choice, ties included.**  `argsort` in the model is the stable sort: candidates are ranked by
+    (criterion value, position) lexicographically and the first `k` are taken — every chosen candidate
+    precedes every unchosen one in that order.  No hypothesis on the values. -/
+theorem truncation_stable_exact (obj : List α) (k : Nat) : StableTopK obj k (sortingSubset obj k) :=
+  sortingSubset_stableTopK obj k
+
+/-- … and that determines the choice completely: any set with the stable top-k property has the same
+    members as the optimiser's decision (the uniqueness statement WITHOUT the distinctness hypothesis of
+    `truncation_unique_partial`; with ties the tie-break by position is what singles the set out). -/
+theorem truncation_stable_unique (obj : List α) (k : Nat) (S : List Nat) (hS : StableTopK obj k S) :
+    ∀ i, i ∈ S ↔ i ∈ sortingSubset obj k :=
+  stableTopK_unique obj k S _ hS (sortingSubset_stableTopK obj k)
+
+/-- **Permutation / relabelling, ties allowed, in terms of individuals.**  Present the candidates in the
+    order `π` (`obj' i = obj (π i)`): mapped back through `π`, the decision taken on the permuted population
+    is again a best-`k` set of the original population (which one among tied candidates depends on their
+    positions — see `truncation_perm_ties_counterexample`). -/
+theorem truncation_perm_image_topK (obj : List α) (k : Nat) (pi : List Nat)
+    (hpi : pi.Perm (List.range obj.length)) :
+    TopK obj k ((sortingSubset (Np.take pi obj) k).map (fun i => pi.getD i 0)) :=
+  image_topK obj k pi hpi _ (sortingSubset_topK (Np.take pi obj) k)
+
+/-- with pairwise-distinct criterion values *the* best-k set is unique …
+
+    FULL STATEMENT (false with ties, see `truncation_unique_counterexample`): the same without `hinj`;
+    the full-strength replacement is `truncation_stable_unique`. -/
 theorem truncation_unique_partial (obj : List α) (k : Nat) (S : List Nat)
     (hinj : ∀ (i j : Nat) (a : α), obj[i]? = some a → obj[j]? = some a → i = j)
     (hS : TopK obj k S) : ∀ i, i ∈ S ↔ i ∈ sortingSubset obj k :=
   topK_unique obj k S _ hinj hS (sortingSubset_topK obj k)
 
-/-- … and a permutation `π` of the candidates (`obj' i = obj (π i)`) maps the choice to its image.
+/-- … and a permutation `π` of the candidates (`obj' i = obj (π i)`) maps the choice to its image — ties
+    allowed, provided `π` keeps candidates with EQUAL criterion values in their relative order (the weakest
+    hypothesis under which this can hold for a position-based tie-break; vacuous when all values differ).
 
-    FULL STATEMENT (false with ties, see `truncation_perm_ties_counterexample`): the same without `hinj`. -/
+    FULL STATEMENT (false when `π` reverses a tie, see `truncation_perm_ties_counterexample`): the same
+    without `hmono`.  What holds for every `π` is `truncation_perm_values` (same criterion values) and
+    `truncation_perm_image_topK` (the image is again a best-`k` set). -/
 theorem truncation_perm_equivariant_partial (obj : List α) (k : Nat) (pi : List Nat)
-    (hpi : pi.Perm (List.range obj.length))
-    (hinj : ∀ (i j : Nat) (a : α), obj[i]? = some a → obj[j]? = some a → i = j)
+    (hpi : pi.Perm (List.range obj.length)) (hmono : TieMonotone obj pi)
     (i : Nat) (hi : i < obj.length) :
     i ∈ sortingSubset (Np.take pi obj) k ↔ pi.getD i 0 ∈ sortingSubset obj k := by
-  have himg := image_topK obj k pi hpi _ (sortingSubset_topK (Np.take pi obj) k)
-  have huniq := topK_unique obj k _ _ hinj himg (sortingSubset_topK obj k)
+  have himg := image_stableTopK obj k pi hpi hmono _ (sortingSubset_stableTopK (Np.take pi obj) k)
+  have huniq := stableTopK_unique obj k _ _ himg (sortingSubset_stableTopK obj k)
   have hlen : pi.length = obj.length := by rw [hpi.length_eq, List.length_range]
   have hnd : pi.Nodup := hpi.nodup_iff.mpr List.nodup_range
   constructor
@@ -506,6 +681,20 @@ theorem truncation_perm_equivariant_partial (obj : List α) (k : Nat) (pi : List
     have := (hnd.getElem_inj_iff).mp e
     rw [← this]; exact hi'
 
+/-- pairwise-distinct criterion values make every permutation tie-monotone: the distinct-values form of the
+    equivariance theorem (round 2's statement) is a special case -/
+theorem truncation_perm_equivariant_distinct_partial (obj : List α) (k : Nat) (pi : List Nat)
+    (hpi : pi.Perm (List.range obj.length))
+    (hinj : ∀ (i j : Nat) (a : α), obj[i]? = some a → obj[j]? = some a → i = j)
+    (i : Nat) (hi : i < obj.length) :
+    i ∈ sortingSubset (Np.take pi obj) k ↔ pi.getD i 0 ∈ sortingSubset obj k := by
+  apply truncation_perm_equivariant_partial obj k pi hpi _ i hi
+  intro i j hi' hj' a hij ha hb
+  have e := hinj _ _ a ha hb
+  have hnd : pi.Nodup := hpi.nodup_iff.mpr List.nodup_range
+  have := (hnd.getElem_inj_iff).mp e
+  omega
+
 end truncation
 
 /-- two candidates with equal criterion, one to be chosen: the first position wins before and after the
@@ -514,7 +703,28 @@ theorem truncation_perm_ties_counterexample :
     ¬ ((0 : Nat) ∈ sortingSubset (Np.take [1, 0] ([1, 1] : List Int)) 1 ↔
         ([1, 0] : List Nat).getD 0 0 ∈ sortingSubset ([1, 1] : List Int) 1) := by decide
 
+/-- the distinctness hypothesis of `truncation_unique_partial` is necessary: with two tied candidates and one
+    to be chosen, `[1]` is a best-1 set as well, but the optimiser returns `[0]` -/
+theorem truncation_unique_counterexample :
+    TopK ([1, 1] : List Int) 1 [1] ∧ ¬ (∀ i, i ∈ ([1] : List Nat) ↔ i ∈ sortingSubset ([1, 1] : List Int) 1) := by
+  refine ⟨(specTopK_iff _ _ _).mp (by decide), ?_⟩
+  intro h
+  have := (h 1).mp (by decide)
+  revert this
+  decide
+
+-- a permutation that moves tied candidates but keeps their relative order: obj = (4,1,4,1), π = (1,0,3,2)
+-- presents (1,4,1,4); the tied 1s (positions 1,3 of obj) and the tied 4s (0,2) keep their order
+example : sortingSubset (Np.take [1, 0, 3, 2] ([4, 1, 4, 1] : List Int)) 1 = [0] ∧
+    ([1, 0, 3, 2] : List Nat).getD 0 0 ∈ sortingSubset ([4, 1, 4, 1] : List Int) 1 := by decide
+example : TieMonotone ([4, 1, 4, 1] : List Int) [1, 0, 3, 2] := by
+  intro i j hi hj a hij ha hb
+  simp only [List.length_cons, List.length_nil] at hi hj
+  interval_cases i <;> interval_cases j <;> simp_all <;> omega
 example : sortingSubset ([3, 1, 5, 2, 9, 0] : List Int) 3 = [5, 1, 3] := by decide
+-- ties: the stable sort takes the first of the tied candidates
+example : sortingSubset ([4, 1, 4, 1, 1] : List Int) 2 = [1, 3] ∧ sortingSubset ([4, 1, 4, 1, 1] : List Int) 4 = [1, 3, 4, 0] := by
+  decide
 example : ∀ (i j : Nat) (a : Int), ([3, 1, 5] : List Int)[i]? = some a → ([3, 1, 5] : List Int)[j]? = some a → i = j := by
   intro i j a hi hj
   match i, j with
@@ -616,9 +826,29 @@ theorem mo_choice_spec {β : Type} (wt : α) (tvals : List α) (decns : List β)
   obtain ⟨j, hj, rfl⟩ := List.mem_iff_getElem.mp hu
   exact hmax j _ (List.getElem?_eq_getElem hj)
 
+/-- the Spec means what it says (`spec_iff`): `ix` names a front member whose weighted transformed value
+    is not exceeded by any other member's -/
+theorem mo_choice_spec_iff (wt : α) (tvals : List α) (ix : Nat) :
+    specArgmax wt tvals ix = true ↔ ∃ t, tvals[ix]? = some t ∧ ∀ u ∈ tvals, wt * u ≤ wt * t :=
+  specArgmax_iff wt tvals ix
+
+/-- a choice made on a FILTERED front (e.g. its constraint-satisfying members only) and used as a position
+    in the unfiltered one need not pass the Spec: the Spec looks at the whole front (class of seeded change
+    C07-c1; concrete instance below) -/
+theorem mo_choice_is_over_the_whole_front (wt : α) (tvals : List α) (ix : Nat)
+    (h : specArgmax wt tvals ix = true) : ∀ (j : Nat) (u : α), tvals[j]? = some u →
+      ∃ t, tvals[ix]? = some t ∧ wt * u ≤ wt * t := by
+  obtain ⟨t, ht, hmax⟩ := (specArgmax_iff wt tvals ix).mp h
+  intro j u hu
+  exact ⟨t, ht, hmax u (List.mem_of_getElem? hu)⟩
+
 end mo
 
 example : moChoice (-1 : Int) [3, 1, 5, 1] [[0, 1], [2, 3], [4, 5], [6, 7]] = some (1, [2, 3]) := by decide
+-- front values (1, 5, 3) with the first member violating a constraint: the feasible members are (5, 3), the
+-- argmax inside the filtered list is position 0, which in the unfiltered front is the infeasible, worst member
+example : specArgmax (1 : Int) [1, 5, 3] 0 = false ∧ specArgmax (1 : Int) [1, 5, 3] 1 = true ∧
+    SelProt.argmax ([5, 3] : List Int) = some 0 := by decide
 
 /-- **Multi-objective subset protocol, end to end**: the configuration is built from the front member
     that maximises the weighted transformation and satisfies every configuration clause for it. -/
@@ -662,6 +892,46 @@ theorem mate_integer_xconfig (decn : List Nat) (xmap : Rows) (nc : Nat) (rem per
     · omega
     · rw [Nat.add_mul]; omega
 
+/-- **Binary mate selection** (every contribution 0 or 1): the whole Spec holds for the protocols' cross map —
+    crosses are map rows of selected candidate crosses, shares within one (`spec_sound`). -/
+theorem mate_binary_xconfig_spec (decn : List Nat) (ntaxa np nc : Nat) (unique : Bool)
+    (rem perm perm2 : List Nat) (rows : Rows)
+    (hbin : ∀ d ∈ decn, d ≤ 1)
+    (vt : ValidTiled (options decn) nc rem perm) (hp2 : perm2.Perm (List.range nc))
+    (h : sampleMateInteger decn (xmapix ntaxa np unique) nc rem perm perm2 = .ok rows) :
+    specMateContribution (decn.map (fun (d : Nat) => (d : Rat))) (xmapix ntaxa np unique) nc np rows = true := by
+  obtain ⟨out, ht, hl⟩ := sampleMate_split h
+  obtain ⟨_, ht', _, hlen⟩ := tiledChoice_ok (options decn) nc rem perm vt
+  rw [ht] at ht'; cases ht'
+  have hperm : (Np.take perm2 out).Perm out := take_perm out perm2 (by rw [hlen]; exact hp2)
+  obtain ⟨e1, e2⟩ := lookup_ok _ _ rows hl
+  rw [e1]
+  have hS : 0 < decn.sum := by
+    have := vt.nonempty
+    rw [← List.length_pos_iff, length_options] at this
+    exact this
+  refine specMateContribution_of _ _ nc np _ (xmapix_nodup ntaxa np unique) (xmapix_row_length ntaxa np unique)
+    (by rw [hperm.length_eq, hlen]) ?_ ?_
+  · intro d hd
+    have hm := tiledChoice_mem (options decn) nc rem perm out vt ht d (hperm.mem_iff.mp hd)
+    have hpos : 0 < (options decn).count d := List.count_pos_iff.mpr hm
+    rw [count_options] at hpos
+    have hdl : d < decn.length := by
+      by_contra hn
+      simp [List.getD_eq_getElem?_getD, List.getElem?_eq_none (Nat.le_of_not_lt hn)] at hpos
+    refine ⟨e2 d hd, by simpa using hdl, ?_⟩
+    have : (decn.map (fun (d : Nat) => (d : Rat))).getD d 0 = ((decn.getD d 0 : Nat) : Rat) := by
+      simp [List.getD_eq_getElem?_getD, List.getElem?_map, List.getElem?_eq_getElem hdl]
+    rw [this]
+    exact_mod_cast hpos
+  · apply withinOne_binary decn nc _ rem hbin hS (by rw [vt.rem_len, length_options])
+    intro i
+    rw [hperm.count_eq]
+    obtain ⟨h1, h2⟩ := tiledChoice_count (options decn) nc rem perm out vt ht i
+    rw [count_options, length_options] at h1
+    rw [count_options] at h2
+    exact ⟨h1, h2⟩
+
 /-- **Real mate selection, full strength** (sampler inside the model): the crosses are map rows of
     candidate crosses of positive weight, there are `ncross` of them, and every candidate cross is used
     the floor or the ceiling of its share `ncross·w_d/Σw` — for every offset, 0 included. -/
@@ -694,6 +964,23 @@ theorem mate_real_xconfig (w : List ℚ) (xmap : Rows) (nc : Nat) (sigma : List 
 
 example : sampleMateRealSus ([1/2, 1/2, 1] : List ℚ) (xmapix 3 2 true) 4 [2, 1, 0] 0 [3, 1, 0, 2] [0, 1, 2, 3]
     = .ok [[0, 1], [1, 2], [1, 2], [0, 2]] := by decide +kernel
+
+/-- the Spec the harness evaluates on a real-valued mate-selection configuration is met by the model
+    (`spec_sound`), for the protocols' cross map -/
+theorem mate_real_xconfig_spec (w : List ℚ) (ntaxa np nc : Nat) (unique : Bool) (sigma : List Nat) (o : ℚ)
+    (perm perm2 : List Nat) (rows : Rows)
+    (hv : C17.SusValid w) (hp2 : perm2.Perm (List.range nc))
+    (h : sampleMateRealSus w (xmapix ntaxa np unique) nc sigma o perm perm2 = .ok rows) :
+    specMateContribution w (xmapix ntaxa np unique) nc np rows = true := by
+  obtain ⟨out, e, hl, hm, hfc⟩ := mate_real_xconfig w _ nc sigma o perm perm2 rows hv hp2 h
+  rw [e]
+  refine specMateContribution_of w _ nc np out (xmapix_nodup ntaxa np unique) (xmapix_row_length ntaxa np unique) hl ?_ ?_
+  · intro d hd
+    obtain ⟨h1, h2, h3⟩ := hm d hd
+    refine ⟨h1, h2, ?_⟩
+    have : w.getD d 0 = w[d] := by simp [h2]
+    rw [this]; exact h3
+  · exact withinOne_of_floor_ceil w nc out hv.2 hfc
 
 /-- **UC integer protocol (after fix 3d8c7c9b).**  For every `ncross ≥ 1` and every per-cross
     `nmating` array the decision-space bounds are built: both have one entry per candidate cross, the
@@ -767,5 +1054,35 @@ theorem family_vector_bounds_prerepair_counterexample (nparent ntaxa : Nat) (h :
 example : familyVectorBoundsPrerepair 2 3 = .error "value" ∧ familyVectorBounds 2 3 = .ok () ∧
     embvIntegerBoundsPrerepair 3 = .error "type" ∧
     embvIntegerBounds 2 2 [1, 3] 3 = .ok ([0, 0, 0], [12, 12, 12]) := by decide
+
+/-! ## 10. The decision space every protocol class hands to its optimiser -/
+
+/-- **Subset encodings.**  `decn_space = arange(nopt)`, bounds `0 … nopt-1` of length `ndecn`: the space meets
+    the decision-space Spec for every number of candidates and every number of slots. -/
+theorem subset_problem_space (nopt ndecn : Nat) : specSpace true nopt (subsetSpace nopt ndecn) = true :=
+  subsetSpace_spec nopt ndecn
+
+/-- **Vector encodings** (integer / binary / real): one variable per candidate, lower bound 0, a positive
+    upper bound — whatever formula the family uses for it (`ntaxa`, `Σ nmating`, `Σ nmating·nprogeny`,
+    `ncross·nparent·max nmating`, 1). -/
+theorem vector_problem_space (nopt ub : Nat) (h : 0 < ub) : specSpace false nopt (vectorSpace nopt ub) = true :=
+  vectorSpace_spec nopt ub h
+
+/-- the UC / EMBV integer bounds of section 8/9 are this vector space -/
+theorem uc_integer_bounds_is_vector_space (nc np nx m : Nat) (ms : List Nat) :
+    ucIntegerBounds nc np (m :: ms) nx =
+      .ok ((vectorSpace nx (nc * np * ms.foldl max m)).lower, (vectorSpace nx (nc * np * ms.foldl max m)).upper) := rfl
+
+/-- what a passed decision-space Spec guarantees for a subset encoding: each of the `nopt` candidates is
+    offered exactly once, nothing else is, and the bound vectors have `ndecn` entries -/
+theorem subset_space_spec_sound (nopt : Nat) (s : Space) (h : specSpace true nopt s = true) :
+    (∀ i, i < nopt → s.space.count i = 1) ∧ (∀ i ∈ s.space, i < nopt) ∧
+      s.lower.length = s.ndecn ∧ s.upper.length = s.ndecn :=
+  specSpace_subset_members nopt s h
+
+example : subsetSpace 6 4 = ⟨4, [0, 1, 2, 3, 4, 5], [0, 0, 0, 0], [5, 5, 5, 5]⟩ ∧
+    vectorSpace 3 12 = ⟨3, [], [0, 0, 0], [12, 12, 12]⟩ ∧
+    specSpace true 6 ⟨4, [0, 1, 2, 3, 4], [0, 0, 0, 0], [5, 5, 5, 5]⟩ = false ∧
+    specSpace false 3 ⟨3, [], [0, 0, 0], [12, 12]⟩ = false := by decide
 
 end C07
